@@ -214,7 +214,7 @@ def _build(inst, settings, presolve_log=None):
         return e
     kwargs = {'settings': dict(settings)}
     if inst['covers'] is not None:
-        kwargs['covers'] = {i: np.array(cov, dtype=bool) for i, cov in inst['covers'].items()}
+        kwargs['covers'] = {int(i): np.array(cov, dtype=bool) for i, cov in inst['covers'].items()}
     # record the answers of the optimisation-based presolve
     log = []
     orig_o, orig_c = sc.ExpCoverHelper._presolve_trivial_ord_age, sc.ExpCoverHelper._presolve_trivial_cond_age
